@@ -360,7 +360,7 @@ func (w *worker[T, JobType]) numMinIdleWorkers() int {
 	percentage := w.Configs.minIdleWorkerRatio
 	concurrency := w.concurrency.Load()
 
-	return int(max((concurrency*uint32(percentage))/100, 1))
+	return int(max((uint64(concurrency)*uint64(percentage))/100, 1))
 }
 
 func (w *worker[T, JobType]) goRemoveIdleWorkers() {
